@@ -67,8 +67,23 @@ def run(ctx):
     ctx.notes.append("uploads that die with a non-unhappiness exception while the threshold was reachable are recorded above as died:* and not judged "
                      "(statement silent); the AssertionError of CHKUploader.set_shareholders is never judged (known benign)")
     ctx.sample({"consts": traces[0]["consts"], "events": traces[0]["events"][:12]}, limit=2)
-    ctx.trace("immutable/TraceUpload", traces, invariants=("C06_NoPartialVisible_everywhere",), key_of=key_of, what_of=what_of,
-              workers=4, batch=1000, timeout=3000)
+    # clauses of the sibling property C07 (an upload declared unhappy on a fault-free grid where a happy layout exists) are
+    # reported by C07's own check
+    captured = []
+    ctx.report = lambda key, what, replay=None: captured.append((key, what, replay))
+    try:
+        ctx.trace("immutable/TraceUpload", traces, invariants=("C06_NoPartialVisible_everywhere",), key_of=key_of, what_of=what_of,
+                  workers=4, batch=1000, timeout=3000)
+    finally:
+        del ctx.report
+    sib = set()
+    for key, wh, replay in captured:
+        if ":C07_" in key:
+            sib.add(key)
+        else:
+            ctx.report(key, wh, replay)
+    if sib:
+        ctx.notes.append("traces cut short by clauses of the sibling property C07 (reported by its own check): %s" % sorted(sib))
     ctx.rule = ("MC: every behaviour of the abstract uploader over the listed constants. TRACE: %d seeded real uploads (1..%d servers, k<=3, n<=6, "
                 "happy 1..n; server modes writable/readonly/full (advertised or hidden)/small/failing/flaky/slow; optional earlier upload of the "
                 "same storage index on a subset of servers, possibly with another N and deleted shares; up to 3 one-shot faults raise/disconnect on "
